@@ -13,7 +13,7 @@ import (
 
 func init() {
 	register("C10", runC10, propMeta{
-		Explanation: "Decides the structural conditions behind 'total, all-or-nothing, identical across entry points': (K1, sibling cross-check) each of the three functions that create a lexer (BuildRuleFromString, BuildRuleWithIncremental, getKc) feeds the whole text to one input stream, attaches a fresh GengineErrorListener to the lexer and another to the parser, walks psr.Primary() with a GengineParserListener over a fresh KnowledgeContext, and every return with a nil error is dominated by the three tests len(lexerErrors)>0, len(parserErrors)>0, len(listener.ParseErrors)>0, each of whose true edges returns a new error; the five public entry points reach exactly these pipelines (call graph); (K2) no store to installed state can be followed by an error return in any entry point or helper; (K3) the listener stores a rule under its name only on the miss edge of a lookup of the same name in the same map, the hit edge records an error; (K4) holder completeness: every Enter handler that pushes pushes one *base.T, the matching Exit pops once asserting the same type, and for every handler that asserts the type of the stack top, every possible nearest pushing ancestor in the generated parser's rule call graph (all rule-invocation chains, which is also the nesting of error-recovered trees) pushes a type that implements the asserted interface / is the asserted type, and the stack cannot be empty there; (K5) every handler that touches the stack or the container does so only after the guard `len(ParseErrors) > 0 -> return`, so after the first recorded error the stack is never touched again. (K9) on the way from an entry point to a pipeline the rule text is handed on from parameter to parameter, never a value computed from it, so that every entry point compiles the very string it received. (K8) no handler of the listener package cuts a string or slice by position unless dominating length tests cover the bounds (contexts of truncated texts have empty text). Not decided: that the ANTLR lexer/parser never panic on arbitrary bytes and that token accessors (ctx.SIMPLENAME() etc.) are non-nil on error-recovered contexts. (K10) in every function that carries the text towards a pipeline no return with a possibly nil error avoids the call that carries it on: a text is accepted only after it has been compiled. (K11) after the lexer has been created a pipeline returns an error only under a test of a length or of an error for nil: the pipelines reject on the same grounds. (K12) the merge inserts where tool.BinarySearch says: a hit returns the probe, a miss the insertion point and 0. (K13) on the way to the pipeline a function returns an error of its own only on grounds that are not a look at the text, the test for an empty or blank text aside.",
+		Explanation: "Decides the structural conditions behind 'total, all-or-nothing, identical across entry points': (K1, sibling cross-check) each of the three functions that create a lexer (BuildRuleFromString, BuildRuleWithIncremental, getKc) feeds the whole text to one input stream, attaches a fresh GengineErrorListener to the lexer and another to the parser, walks psr.Primary() with a GengineParserListener over a fresh KnowledgeContext, and every return with a nil error is dominated by the three tests len(lexerErrors)>0, len(parserErrors)>0, len(listener.ParseErrors)>0, each of whose true edges returns a new error; the five public entry points reach exactly these pipelines (call graph); (K2) no store to installed state can be followed by an error return in any entry point or helper; (K3) the listener stores a rule under its name only on the miss edge of a lookup of the same name in the same map, the hit edge records an error; (K4) holder completeness: every Enter handler that pushes pushes one *base.T, the matching Exit pops once asserting the same type, and for every handler that asserts the type of the stack top, every possible nearest pushing ancestor in the generated parser's rule call graph (all rule-invocation chains, which is also the nesting of error-recovered trees) pushes a type that implements the asserted interface / is the asserted type, and the stack cannot be empty there; (K5) every handler that touches the stack or the container does so only after the guard `len(ParseErrors) > 0 -> return`, so after the first recorded error the stack is never touched again. (K9) on the way from an entry point to a pipeline the rule text is handed on from parameter to parameter, never a value computed from it, so that every entry point compiles the very string it received. (K8) no handler of the listener package cuts a string or slice by position unless dominating length tests cover the bounds (contexts of truncated texts have empty text). Not decided: that the ANTLR lexer/parser never panic on arbitrary bytes and that token accessors (ctx.SIMPLENAME() etc.) are non-nil on error-recovered contexts. (K10) in every function that carries the text towards a pipeline no return with a possibly nil error avoids the call that carries it on: a text is accepted only after it has been compiled. (K11) after the lexer has been created a pipeline returns an error only under a test of a length or of an error for nil: the pipelines reject on the same grounds. (K12) the merge inserts where tool.BinarySearch says: a hit returns the probe, a miss the insertion point and 0. (K13) on the way to the pipeline a function returns an error of its own only on grounds that are not a look at the text, the test for an empty or blank text aside. (K14) no function can return or fault with buildLock or updateLock still locked: a later build would never return.",
 		Assumptions: []string{"ANTLR builds a parse tree nested by rule invocation and calls Enter/Exit in matching pairs", "the antlr runtime itself is total"},
 		Trusted:     commonTrusted,
 	})
@@ -388,6 +388,13 @@ func runC10(c *Ctx) {
 	// miss the insertion point and 0 (C08-H1b) -- both merges read a non-zero second result as a hit
 	c.ruleBinarySearch("K12-merged-where-the-search-says")
 	c.Min("K12-merged-where-the-search-says", 3)
+	// "each compile entry point returns normally": the builds take buildLock (the pool's updates updateLock)
+	// first thing, so a function that can return, or fault, with one of them still locked makes every later
+	// build wait for ever (the lock rule of C09-R9 for these two locks)
+	c.only = func(key string) bool { return strings.Contains(key, "buildLock") || strings.Contains(key, "updateLock") }
+	c.ruleLockPanicSafe("K14-no-build-lock-left-locked")
+	c.only = nil
+	c.Min("K14-no-build-lock-left-locked", 8)
 	c.ruleListenerCannotFault("K8-listener-cannot-fault")
 	c.Min("K8-listener-cannot-fault", 1)
 }
